@@ -59,7 +59,11 @@ Chain == << [st |-> {"a", "SUF", "POL"}, g |-> 1],
 DB(c) == INSTANCE Database WITH chain <- c, tempsFrom <- 1, gens <- [h \in 0..(MaxLen - 1) |-> 1], nwrites <- 0,
                                 pool <- {}, pending <- FALSE, nsteps <- 0, lastact <- <<>>, path <- <<>>, step <- "",
                                 MaxWrites <- 0, MaxSteps <- 0, MaxPool <- 0, KeepPath <- FALSE, EmitStep <- FALSE,
-                                WithReopen <- FALSE, WithCenter <- TRUE, Repaired <- TRUE
+                                WithReopen <- FALSE, WithCenter <- TRUE, Repaired <- TRUE,
+                                \* (Database.tla v2: block size classes and memory - not used by Reads)
+                                Contents <- {}, SizeClasses <- {"s"}, MaxBig <- 0, WriteLimit <- BWLimit,
+                                MergeLimit <- PermLimit, CacheChoices <- {FALSE}, ReadOptional <- FALSE, Purge <- TRUE,
+                                nbig <- 0, fills <- {}, tcache <- {}, pcache <- <<>>, eff <- <<>>
 ReadsOf(len) == DB(SubSeq(Chain, 1, len))!Reads
 
 -----------------------------------------------------------------------------
